@@ -197,6 +197,11 @@ def witness_facts(name, source, config="FULL", th=None, hir=False, extra_args=()
             with open(os.path.join(wd, meta["facts"])) as fh:
                 facts = json.load(fh)
         return facts, meta["diag"], meta["rc"]
+    # build in a private directory and publish it with one rename: two threads/processes asking for the same witness at the
+    # same time (duplicate generated literals, parallel self-test runs) must not trample each other
+    final_wd = wd
+    import threading
+    wd = "%s.tmp-%d-%d" % (final_wd, os.getpid(), threading.get_ident())
     shutil.rmtree(wd, ignore_errors=True)
     os.makedirs(wd)
     src = os.path.join(wd, name + ".rs")
@@ -219,13 +224,20 @@ def witness_facts(name, source, config="FULL", th=None, hir=False, extra_args=()
         fname = os.path.basename(fs[0])
         with open(fs[0]) as fh:
             facts = json.load(fh)
-    with open(res_file, "w") as fh:
-        json.dump({"facts": fname, "diag": r.stdout, "rc": r.returncode}, fh)
+    with open(os.path.join(wd, "result.json"), "w") as fh:
+        json.dump({"facts": fname, "diag": r.stdout.replace(wd, final_wd), "rc": r.returncode}, fh)
     try:
         os.remove(os.path.join(wd, "lib%s.rmeta" % name))
     except OSError:
         pass
-    return facts, r.stdout, r.returncode
+    try:
+        if not os.path.exists(final_wd):
+            os.rename(wd, final_wd)
+        else:
+            shutil.rmtree(wd, ignore_errors=True)
+    except OSError:
+        shutil.rmtree(wd, ignore_errors=True)
+    return facts, r.stdout.replace(wd, final_wd), r.returncode
 
 
 # ---------------------------------------------------------------------------
